@@ -290,10 +290,18 @@ SPEC = {
                   "(renaming_equivariant; a renaming that breaks the name_k format refutes the literal clause: witness). (2) NamesEmit: how "
                   "the HLSL (dx, vk, vk + buffer addresses) and Metal exporters consume the map - every declaration and use of an "
                   "identifier of the emitted program incl. InlineDescriptorN / g_inlineDescriptorN, threaded Metal parameters, "
-                  "ArgumentBufferN, setN and the ComputeShaderEntry wrapper, plus the reflected binding and entry-point names: every "
+                  "ArgumentBufferN, setN, the ComputeShaderEntry wrapper and the implicit wave parameters (thread_index_in_simdgroup / "
+                  "threads_per_simdgroup, declared in every function of the WaveGetLaneIndex / WaveGetLaneCount call closure, passed on at "
+                  "every call, created by the wrapper), plus the reflected binding and entry-point names: every "
                   "declaration of a map-managed entity carries the map's leaf name and is therefore never reserved "
                   "(emitted_never_reserved), file-scope declarations of one namespace are pairwise different "
-                  "(emitted_injective_file_scope), and in programs without namespaces every map-managed candidate C++ lookup finds for the "
+                  "(emitted_injective_file_scope), no map-managed declaration is spelled like an implicit wave parameter because those names "
+                  "are reserved (implicit_params_apart_from_managed; necessary: implicit_param_clash_without_reservation_witness), every "
+                  "fixed identifier the generators introduce themselves - re-extracted from declaring positions of generator.rs / "
+                  "pipeline.rs / ast_generate.rs and from the constants of names.rs - is in RESERVED_NAMES "
+                  "(introduced_names_reserved_as_modelled; the numbered format! identifiers setN / InlineDescriptorN / g_inlineDescriptorN "
+                  "are not: witness), the model's implicit parameter names / triggering intrinsics / order are the generator's "
+                  "(implicit_params_as_modelled), and in programs without namespaces every map-managed candidate C++ lookup finds for the "
                   "name printed for a used function/global is that entity (uses_resolve_to_same_entity). The clauses that are false on the "
                   "current code (struct members, cbuffer blocks/members, generated names, locals vs type names, Metal wrapper parameters, "
                   "leaf-named threaded parameters / inline-descriptor members, relative paths, methods) are proved false by 11 witnesses "
@@ -313,15 +321,24 @@ SPEC = {
             "and entry points name the declaration sites they name in the skeleton, names agree with the direct NameMap::build call, "
             "verbatim names; the model must print the same declaration/use listing, reflection and entry names.  Sweeps: every name of "
             "RESERVED_NAMES (both targets), of the independent lists and of the exporters' own generated names in 27 resource "
-            "positions x 4 targets and 13 plain positions x 2 targets; random programs over small name pools.  non-trivial = a "
+            "positions x 4 targets and 13 plain positions x 2 targets, plus 11 wave positions (entry / helper parameter, local, "
+            "block local, caller that only passes the values on, threaded global, resource, function, entry, namespace) for every "
+            "identifier the exporters introduce (list = fixed list + identifiers re-extracted from the generator sources + "
+            "RESERVED_NAMES + Spec lists, so a name dropped from RESERVED_NAMES stays swept); random programs over small name "
+            "pools, and a second random stream whose bodies use the wave intrinsics and whose pools take introduced names.  non-trivial = a "
             "generated name occurs or >= 4 symbols are named",
     "trusted_base": [
         "Lean 4.33 kernel; axioms propext / Classical.choice / Quot.sound only (audited by #print axioms)",
         "tools/gens/c15.py (Gen.Reserved: RESERVED_NAMES of both exporters with constants resolved, is_illegal_*_name, literal "
-        "fingerprints of the statements of NameMap::build the model transcribes, the NameMap::build call arguments)",
+        "fingerprints of the statements of NameMap::build the model transcribes, the NameMap::build call arguments; "
+        "mslIntroduced / hlslIntroduced / *Patterns: identifiers in the declaring positions Declarator::Identifier(ScopedIdentifier::"
+        "trivial(X)), Declarator::from(Located::none(X)), VarDef::one(Located::none(String::from(X))) and every names.rs constant the "
+        "generator sources mention; mslImplicitParams / mslImplicitIntrinsics / mslImplicitOrder: per-arm extraction of the three "
+        "ImplicitFunctionParameter matches, which must agree; generator/intrinsic_helpers.rs is excluded - it declares only inside "
+        "namespace helper)",
         "hand-written Model/Names.lean mirrors NameMap::build, Model/NamesEmit.lean mirrors the consumption of the map by "
         "hlsl/src/ast_generate.rs and msl/src/generator.rs + generator/pipeline.rs; both tied to the code by the correspondence "
-        "run only (no translator table for the exporters)",
+        "run only, except the implicit wave parameters and the introduced-name tables (Gen.Reserved)",
         "Spec/Names.lean: committed independent keyword/built-in lists for HLSL and MSL (our reading of the language references); "
         "Spec/NamesResolve.lean: C++ unqualified lookup for programs without namespaces",
         "harness: descriptor -> RSSL printers, output lexer and scope resolver (names stream), syntax-tree walker with C++ lookup and "
